@@ -371,6 +371,25 @@ async def _main(loop, case):
                 is_open = False
                 w.log_mark = len(w.log)
                 w.trace.append(("stop", w.mono()))
+            elif k == "abandon":
+                # abandon the pending synchronisation (stop() cancels its future; cancelling the connect task does too) and
+                # hand genuine answers to the receive path BEFORE synchronize() has run again (same loop iteration):
+                # `_expected_notify_handler` is still set, its future is already done
+                pending_sync = (w.connect_task is not None and not w.connect_task.done()
+                                and w.timer._expected_notify_handler is not None)
+                if not (is_open and pending_sync):
+                    continue
+                if step["how"] == "stop":
+                    w.group.stop()
+                else:
+                    w.connect_task.cancel()
+                w.do_dgrams(step["frames"])
+                await loop.settle()
+                if step["how"] != "stop":
+                    w.group.stop()
+                is_open = False
+                w.log_mark = len(w.log)
+                w.trace.append(("stop", w.mono()))      # the monitor's `stop`: stop() and its consequences have settled
             elif k == "sleep":
                 await asyncio.sleep(step["ms"] / 1000.0)
             await loop.settle()
@@ -672,6 +691,14 @@ def _gen_case(rng, big):
     if rng.random() < 0.1:
         steps.append({"k": "snd"})
     steps.append({"k": "conn"})
+    if rng.random() < 0.1:
+        # the synchronisation is abandoned and its (genuine) answer arrives before synchronize() runs again
+        if rng.random() < 0.5:
+            steps.append({"k": "sleep", "ms": rng.choice([1, 100, 1500])})
+        ans = [{"f": "notify", "mac": 0 if rng.random() < 0.15 else 1, "own": 1, "tagm": 1, "base": "local",
+                "off": rng.choice([0, 1, -50, 5000, 60000, -60000, 1800000])} for _ in range(rng.choice([1, 1, 2]))]
+        steps.append({"k": "abandon", "how": rng.choice(["stop", "cancel"]), "frames": ans})
+        steps.append({"k": "conn"})
     m = rng.random()
     if m < 0.2:
         steps.append({"k": "sleep", "ms": 20000})          # not answered: becomes time keeper
